@@ -179,6 +179,15 @@ impl Step {
         )
     }
 
+    /// the (bucket path, key or name) a mutating step aims at
+    pub fn target(&self) -> Option<(&Path, &Blob)> {
+        match self {
+            Step::Put { path, key, .. } | Step::Delete { path, key } => Some((path, key)),
+            Step::CreateBucket { path, name, .. } | Step::GetOrCreate { path, name, .. } | Step::DeleteBucket { path, name } => Some((path, name)),
+            _ => None,
+        }
+    }
+
     pub fn path(&self) -> Option<&Path> {
         match self {
             Step::Put { path, .. }
